@@ -33,15 +33,30 @@ def run_one(hs, item):
     h = hs[item['harness']]
     ctx = ConCtx(item['cfg'], item['inputs'])
     res = {'outcome': None, 'failures': [], 'obs': [], 'exc': None, 'missing': []}
+    import signal
+
+    class _Timeout(BaseException):
+        pass
+
+    def _alarm(signum, frame):
+        raise _Timeout()
+    old_handler = signal.signal(signal.SIGALRM, _alarm)
+    signal.alarm(int(os.environ.get('SYMX_REPLAY_ITEM_S', '60')))
     try:
         run_harness(h, ctx)
         res['outcome'] = ctx._outcome or 'return'
+    except _Timeout:
+        # the plain library did not finish on this input: a failure of the run, never a pass
+        res['outcome'] = 'timeout'
+        ctx.failures.append('replay/does-not-terminate-within-%ss' % os.environ.get('SYMX_REPLAY_ITEM_S', '60'))
     except AssumeFailed:
         res['outcome'] = 'assume-failed'
     except Exception as ex:
         res['outcome'] = exc_label(ex)
         res['exc'] = traceback.format_exc().splitlines()[-8:]
         ctx.failures.append(res['outcome'])
+    signal.alarm(0)
+    signal.signal(signal.SIGALRM, old_handler)
     res['failures'] = ctx.failures
     res['obs'] = [[n, norm(v)] for n, v in ctx.obs]
     res['missing'] = ctx.missing
